@@ -1,6 +1,6 @@
 (* C07 — property theorems only.  Each is closed by `exact` of a lemma of C07_Proofs.v. *)
 From Coq Require Import List NArith Bool String.
-From Dae Require Import C07_Spec C07_Model C07_Proofs.
+From Dae Require Import C07_Spec C07_Model C07_Proofs C07_ProofsSplit C07_ProofsRouter.
 From Dae.gen Require Import C07_Consts.
 Import ListNotations.
 Open Scope N_scope.
@@ -120,3 +120,85 @@ Example C07_nonvacuous :
             [{| ce_name := "www.example.com"; ce_type := 28; ce_scope := 1; ce_answer := [RAAAA 1] |}] (ex_q 28) ex_answers
      = (Ok [], [], [])).
 Proof. exact C07_nonvacuous_proof. Qed.
+
+(* ================================================================================================ *)
+(* The written request list with internal selectors: request_rule_split.go and daedns.Router          *)
+(* ================================================================================================ *)
+
+(* THE SPLIT IS A PARTITION BY SHAPE, AND A MIXED RULE IS AN ERROR.  For every written request list: SplitRequestRules
+   fails (configuration error) exactly when some rule mixes internal selector kinds or an internal selector with any
+   other function; otherwise its four lists are the rules of shape dns / sub / node / subnode, each in the written order. *)
+Theorem C07_split_partition :
+  forall rs : list rrule,
+    split_request_rules rs =
+    if existsb (fun r => shape_eqb (shape_of r) ShMixed) rs then Err E_MIXED
+    else Ok {| sp_dns := filter (fun r => shape_eqb (shape_of r) ShDns) rs;
+               sp_sub := filter (fun r => shape_eqb (shape_of r) (ShInt ISub)) rs;
+               sp_node := filter (fun r => shape_eqb (shape_of r) (ShInt INode)) rs;
+               sp_subnode := filter (fun r => shape_eqb (shape_of r) (ShInt ISubNode)) rs |}.
+Proof. exact C07_split_partition_proof. Qed.
+Print Assumptions C07_split_partition.
+
+(* NEVER A SILENT DROP: when the split succeeds every written rule is in exactly one of the four lists. *)
+Theorem C07_split_nothing_dropped :
+  forall (rs : list rrule) (sp : split), split_request_rules rs = Ok sp ->
+    (forall r, In r rs <-> In r (sp_dns sp) \/ In r (sp_sub sp) \/ In r (sp_node sp) \/ In r (sp_subnode sp)) /\
+    (List.length rs = List.length (sp_dns sp) + List.length (sp_sub sp) + List.length (sp_node sp) + List.length (sp_subnode sp))%nat.
+Proof. exact C07_split_nothing_dropped_proof. Qed.
+Print Assumptions C07_split_nothing_dropped.
+
+(* THE SPLIT PRESERVES FIRST MATCH FOR ORDINARY QUESTIONS: reading the written list top to bottom, with internal
+   selectors never holding for an ordinary question, gives the same target as the first match over the dns-shaped
+   rules alone (for every list, question and answer context). *)
+Theorem C07_split_preserves_first_match :
+  forall (ups : list string) (fb : string) (x : ctx) (rs : list rrule),
+    first_target_raw ups rs fb x
+    = first_target ups (map to_rule (filter (fun r => shape_eqb (shape_of r) ShDns) rs)) fb x.
+Proof. exact C07_split_preserves_first_match_proof. Qed.
+Print Assumptions C07_split_preserves_first_match.
+
+(* A well-formed written section (internal rules included) is accepted by dns.New, and an ordinary question is decided
+   by RequestSelect exactly as by the first matching rule of the written list. *)
+Theorem C07_rconfig_accepted :
+  forall rc : rconfig, wf_rconfig rc = true -> exists d, dns_new_raw rc = Ok d.
+Proof. exact C07_rconfig_accepted_proof. Qed.
+Print Assumptions C07_rconfig_accepted.
+
+Theorem C07_request_first_match_raw :
+  forall (rc : rconfig) (d : dns) (bm : list N) (q : question),
+    wf_rconfig rc = true -> dns_new_raw rc = Ok d ->
+    (q_name q <> ""%string -> C07_domain_oracle_agrees (d_req d) bm q) ->
+    exists v, request_route_raw rc q = Some v /\ request_select d bm q = Ok v.
+Proof. exact C07_request_first_match_raw_proof. Qed.
+Print Assumptions C07_request_first_match_raw.
+
+(* daedns.Router: a well-formed written section always yields a router (nil exactly when no request rule is written). *)
+Theorem C07_router_total :
+  forall rc : rconfig, wf_rconfig rc = true -> exists o, router_new rc = Ok o /\ (o = None <-> rc_request rc = []).
+Proof. exact C07_router_total_proof. Qed.
+Print Assumptions C07_router_total.
+
+(* INTERNAL SELECTORS = FIRST MATCH.  For every subject (subscription or node, any tag / name / link), the upstream
+   MatchNodeUpstream / MatchSubscriptionUpstream name is that of the first rule of the right kind, in written order,
+   whose selectors all hold — for a node of a subscription a subnode rule before any node rule; and the name is a
+   defined upstream tag. *)
+Theorem C07_router_selectors :
+  forall (rc : rconfig) (r : router) (m : meta),
+    wf_rconfig rc = true -> router_new rc = Ok (Some r) ->
+    match_node_upstream r m = node_upstream (rc_request rc) m /\
+    match_subscription_upstream r m = subscription_upstream (rc_request rc) m /\
+    named_ok (rc_upstreams rc) (node_upstream (rc_request rc) m) /\
+    named_ok (rc_upstreams rc) (subscription_upstream (rc_request rc) m).
+Proof. exact C07_router_selectors_proof. Qed.
+Print Assumptions C07_router_selectors.
+
+(* WHO RESOLVES A HOST FOR DAE ITSELF.  The wrapped dialer asks: the named upstream if an internal rule named one;
+   else, for the subject's own (control) host, the bootstrap resolver; else the upstream of the first matching general
+   request rule, asis/reject meaning the base resolver. *)
+Theorem C07_router_lookup_plan :
+  forall (rc : rconfig) (r : router) (named : option string) (control host : string) (bm : list N) (q : question),
+    wf_rconfig rc = true -> router_new rc = Ok (Some r) -> named_ok (rc_upstreams rc) named ->
+    C07_domain_oracle_agrees (ro_req r) bm q ->
+    dialer_plan r named control host bm q = Ok (lookup_plan rc named control host q).
+Proof. exact C07_router_lookup_plan_proof. Qed.
+Print Assumptions C07_router_lookup_plan.
